@@ -924,6 +924,19 @@ impl Pr {
                     json!({ "not": x })
                 }
             }
+            Expr::CmpL(c, op, v) => {
+                let lt = self.spell(&T::Const(c.clone()), Pos::Operand);
+                let ls = self.span_open();
+                self.term(&lt);
+                self.span_close(ls);
+                self.cmp_op(op);
+                let r = self.var(v);
+                let rs = self.span_open();
+                self.term(&r);
+                self.span_close(rs);
+                self.feats.insert("filter:constant_on_the_left".into());
+                json!({"cmp": [{"$span": ls}, op, {"$span": rs}], "la": {"t": lt}, "ra": {"t": r}})
+            }
             Expr::Cmp(v, op, t) => {
                 let l = self.var(v);
                 let ls = self.span_open();
